@@ -461,6 +461,33 @@ func init() {
 				fail(*f)
 			}
 		}
+		// spelling experiments that do NOT pass through the implementation's own validity filter: every special id and every
+		// unlisted base with every suffix, in three contexts; the extracted set (or the error) must be the model's
+		{
+			words := append(append([]string{}, specialIDs...), unlistedBases...)
+			for i := 0; i < scale(40, 400); i++ {
+				words = append(words, genBaseID())
+			}
+			for _, wd := range words {
+				wd = strings.TrimSuffix(wd, "+")
+				for _, suf := range []string{"", "+", "-or-later", "-only", "-or-later+", "-only+", "++"} {
+					for ci, ctx := range []string{"%s", "MIT OR (%s)", "%s AND %s WITH Classpath-exception-2.0"} {
+						if ci > 0 && rng.Intn(scale(3, 1)) != 0 {
+							continue
+						}
+						w2 := wd
+						if rng.Intn(3) == 0 {
+							w2 = caseMut(wd, rng.Intn(3))
+						}
+						text := strings.ReplaceAll(ctx, "%s", w2+suf)
+						x := implExt(text)
+						res.Evaluations++
+						count("spelling_experiments")
+						correspondNorm("E "+hx(text), x.String(), "extracted terms of a spelling experiment: model vs implementation", &kase{Expr: text, ExprHex: hx(text)}, extractSetNorm)
+					}
+				}
+			}
+		}
 		// long flat chains (boundary sizes of recursion / depth guards): every term must come back, none may be lost,
 		// and a chain of valid terms is a valid expression
 		for _, n := range []int{255, 256, 257, 1000, 4096, 10000, 10001, 12001} {
